@@ -1,7 +1,9 @@
 package consensus
 
 import (
+	"bytes"
 	"fmt"
+	"sort"
 
 	"golang.org/x/crypto/sha3"
 
@@ -55,10 +57,18 @@ func (cv *minObservation[T]) Add(data T) {
 }
 
 func (cv *minObservation[T]) GetValid() []T {
+	// Go randomizes map iteration. Callers that use more than one valid item (e.g. last-writer-wins maps)
+	// must see the items in the same order on every oracle, so iterate in ascending ID order.
+	ids := make([]cciptypes.Bytes32, 0, len(cv.cache))
+	for id := range cv.cache {
+		ids = append(ids, id)
+	}
+	sort.Slice(ids, func(i, j int) bool { return bytes.Compare(ids[i][:], ids[j][:]) < 0 })
+
 	var validated []T
-	for _, rc := range cv.cache {
+	for _, id := range ids {
+		rc := cv.cache[id]
 		if rc.count >= uint(cv.minObservation) {
-			rc := rc
 			validated = append(validated, rc.data)
 		}
 	}
